@@ -392,7 +392,7 @@ func navigate(root Value, path []int) Value {
 
 func loadPtr(p Pointer) Value {
 	if p.O == nil {
-		panic(goPanic{"nil pointer dereference"})
+		panic(goPanic{msg: "nil pointer dereference"})
 	}
 	if p.O.Poison {
 		panic(abort{"read of package-level variable with unknown initial value: " + p.O.Tag})
@@ -402,7 +402,7 @@ func loadPtr(p Pointer) Value {
 
 func storePtr(p Pointer, v Value) {
 	if p.O == nil {
-		panic(goPanic{"nil pointer dereference"})
+		panic(goPanic{msg: "nil pointer dereference"})
 	}
 	if p.O.Frozen {
 		panic(frozenWrite{"store into frozen object (" + p.O.Tag + ")"})
